@@ -51,7 +51,8 @@ def observe(t):
 def run_case(c):
     rc = tsmlib.rig_cfg(seg=c["cMax"], lq=c["lq"], lr=c["lr"], pwc=c["cPW"], pws=c["sPW"], retries=1,
                         c_max=c["cMax"], s_max=c["sMax"], c_seg=c["cSeg"], s_seg=c["sSeg"],
-                        c_maxsegs=None if c["cSegs"] == 0 else c["cSegs"], s_maxsegs=None, known=c["known"], pre=c.get("pre", False), s_knows_c_max=c.get("iamMax"))
+                        c_maxsegs=None if c["cSegs"] == 0 else c["cSegs"], s_maxsegs=None, known=c["known"], pre=c.get("pre", False), s_knows_c_max=c.get("iamMax"),
+                        reann=c.get("reann"))
     t = tsmlib.record(rc, limit=6000)
     return rc, t
 
@@ -116,6 +117,18 @@ CHECK_DEADLOCK FALSE
         for lr in (cMax - 3, cMax - 2, cMax + 40, 3 * cMax):
             cases.append(dict(cSeg="segmentedBoth", cMax=cMax, cSegs=0, cPW=2, sSeg="segmentedBoth", sMax=1476, sSegs=0, sPW=2, known=True,
                               lq=5, lr=lr, iamMax=iamMax))
+    # the server announced itself twice: an older I-Am with other capabilities, and the current one that reaches the client while
+    # an earlier transaction with that server is outstanding (or just after it); requests around both boundaries
+    for oldMax, sMax in ((1024, 128), (128, 1024), (480, 50), (1476, 206)):
+        for when in ("during", "after"):
+            for lq in sorted({sMax - 4, sMax - 3, sMax + 60, oldMax - 4, oldMax - 3, 2 * min(sMax, oldMax) + 7}):
+                cases.append(dict(cSeg="segmentedBoth", cMax=1476, cSegs=0, cPW=2, sSeg="segmentedBoth", sMax=sMax, sSegs=0, sPW=2,
+                                  known=True, lq=lq, lr=5, reann={"max": oldMax, "when": when}))
+    for oldSeg, sSeg in (("segmentedBoth", "noSegmentation"), ("noSegmentation", "segmentedBoth"), ("segmentedBoth", "segmentedTransmit")):
+        for when in ("during", "after"):
+            for lq in (40, 200):
+                cases.append(dict(cSeg="segmentedBoth", cMax=1476, cSegs=0, cPW=2, sSeg=sSeg, sMax=128, sSegs=0, sPW=2,
+                                  known=True, lq=lq, lr=5, reann={"max": 128, "seg": oldSeg, "when": when}))
     # max-segments limits: response needing more segments than the request allows
     for segs in (2, 4, 8, 16, 32, 64):
         for extra in (-1, 0, 1):
@@ -131,7 +144,7 @@ CHECK_DEADLOCK FALSE
                 chk.violation("Terminates", {"cSeg": c["cSeg"], "sSeg": c["sSeg"]}, {"case": c}, {"case": c})
                 continue
             o = observe(t)
-            recs.append({"id": n + 1, "c": {k: v for k, v in c.items() if k not in ("pre", "iamMax")}, "o": o, "pre": bool(c.get("pre"))})
+            recs.append({"id": n + 1, "c": {k: v for k, v in c.items() if k not in ("pre", "iamMax", "reann")}, "o": o, "pre": bool(c.get("pre"))})
             chk.case(json.dumps(c, sort_keys=True), nontrivial=o["reqSegd"] or o["respSegd"] or o["outcome"] != "ack")
             if n < 2:
                 chk.sample({"case": c, "observation": o})
